@@ -161,6 +161,17 @@ def check(run):
         ok = any(n['k'] == 'bin' and n['op'] == '+' and q.linform(f, n) == ({pn: 1}, hsz) for n in f.all_nodes())
         run.check(ok, 'R14', 'udp-length', 'sim::aux::write_udp_header', f.loc(), 'UDP length field is not sizeof(udp_header) + size', 'length = 8 + payload')
 
+    run.clause('one capture at a time: log_pcap() finishes the running capture (its buffered records flushed, its file closed) before the new one opens its file - restarting the capture on the same name otherwise lets the old stream flush into the truncated new file')
+    lp = fx.fn1('sim::simulation::log_pcap')
+    run.touch(lp)
+    news = [n_ for n_ in lp.all_nodes() if n_['k'] in ('construct', 'call') and (q.callee_name(n_) or n_.get('callee') or '').endswith('aux::pcap::pcap')]
+    resets = [c for c in lp.calls() if (c.get('callee') or '').endswith('::reset') and is_node(c.get('obj')) and q.render(lp, c['obj']).replace('this->', '') == 'm_pcap' and q.render(lp, c).replace('this->', '') in ('m_pcap.reset()', 'm_pcap.reset({})', 'm_pcap.reset(nullptr)')]
+    resets += [n_ for n_ in lp.all_nodes() if n_['k'] == 'call' and n_.get('opc') == '=' and n_.get('args') and q.render(lp, n_['args'][0]).replace('this->', '') == 'm_pcap' and q.render(lp, n_['args'][1]) in ('nullptr', 'unique_ptr{}', 'unique_ptr{nullptr}')]
+    if not news:
+        run.broke('simulation::log_pcap no longer creates the capture object')
+    run.check(bool(resets) and all(q.any_precedes(lp, resets, n_) for n_ in news), 'R4', 'capture-restart-finishes-first', 'sim::simulation::log_pcap', lp.loc(),
+              'log_pcap() constructs the new capture (which truncates and opens the file) while the previous one is still alive: its stream is destroyed afterwards and flushes what it had buffered into the new file - a capture restarted on the same name is not a valid pcap file',
+              'm_pcap.reset() precedes the construction of the new capture')
     run.clause('a capture never throws out of the simulation: the IPv4-only record writers cast addresses to v4 only under a family test')
     if engines.address_casts_guarded(run, [g_ for g_ in fx.repo_functions() if g_.file.endswith('pcap.cpp')], rule='R5') < 2:
         run.broke('fewer than 2 address casts in pcap.cpp')
